@@ -68,6 +68,30 @@ Proof.
   apply andb_prop in H as [H1 H2]. apply item_eqb_eq in H1. apply IH in H2. congruence.
 Qed.
 
+Lemma nats_eqb_eq a : forall b, nats_eqb a b = true -> a = b.
+Proof.
+  induction a as [|x a IH]; intros [|y b] H; cbn in H; try discriminate; [reflexivity|].
+  apply andb_prop in H as [H1 H2]. apply Nat.eqb_eq in H1. apply IH in H2. congruence.
+Qed.
+
+Lemma post_eqb_eq a b : post_eqb a b = true -> a = b.
+Proof.
+  unfold post_eqb. intros H. apply andb_prop in H as [H Hc]. apply andb_prop in H as [Hl Hh].
+  destruct a as [al ah ac], b as [bl bh bc]; cbn in *.
+  assert (ac = bc).
+  { destruct ac, bc; cbn in Hc; try discriminate.
+    - apply nats_eqb_eq in Hc. congruence.
+    - apply andb_prop in Hc as [Hc Hp]. apply andb_prop in Hc as [Hi Hk].
+      apply Nat.eqb_eq in Hi. apply Nat.eqb_eq in Hk. apply pval_eqb_eq in Hp. congruence. }
+  f_equal; try lia; assumption.
+Qed.
+
+Lemma posts_eqb_eq a : forall b, posts_eqb a b = true -> a = b.
+Proof.
+  induction a as [|x a IH]; intros [|y b] H; cbn in H; try discriminate; [reflexivity|].
+  apply andb_prop in H as [H1 H2]. apply post_eqb_eq in H1. apply IH in H2. congruence.
+Qed.
+
 Lemma opt_concat_cons_some o l bs :
   opt_concat (o :: l) = Some bs -> exists b r, o = Some b /\ opt_concat l = Some r /\ bs = b ++ r.
 Proof.
@@ -244,6 +268,7 @@ Proof.
   - destruct (ptype_eqb (ptype_of p) t && negb (ptype_eqb t PEnum)); [|discriminate]. apply enc_prim_starts.
   - destruct p; try discriminate. apply enc_prim_starts.
   - destruct (find_cls E c) as [k|]; [|discriminate]. destruct (v <? c_minver k); [discriminate|].
+    destruct (negb (forallb _ _)); [discriminate|].
     destruct (wr_items _ _ _ _) as [body|]; [|discriminate]. apply with_hdr_starts.
   - destruct (find_row E v t tg) as [k'|]; [|discriminate].
     destruct (is_tagged k') eqn:Ek; [discriminate|]. intros H. apply IH in H as [r ->].
@@ -579,12 +604,13 @@ Lemma cls_facts c k : In v VERSIONS -> find_cls E c = Some k ->
   c_rd k = c_wr k /\ tags_disjointb E (filter (active v) (c_rd k)) = true /\
   (forall it, In it (filter (active v) (c_rd k)) -> item_ok E it = true) /\
   (c_substream k = false -> forallb (fun it => negb (peeks (i_mult it))) (filter (active v) (c_rd k)) = true) /\
-  tagged_lastb (filter (active v) (c_rd k)) = true.
+  tagged_lastb (filter (active v) (c_rd k)) = true /\ c_post_rd k = c_post_wr k.
 Proof.
   intros Hv Ec. pose proof (cls_ok_of c k Ec) as Hk. unfold cls_ok in Hk.
+  apply andb_prop in Hk as [Hk Hpo]. apply posts_eqb_eq in Hpo.
   apply andb_prop in Hk as [Hk Htl]. apply andb_prop in Hk as [Hk Hsub].
   apply andb_prop in Hk as [Hk Hd]. apply andb_prop in Hk as [Hrw Hio].
-  split; [apply items_eqb_eq; exact Hrw|]. split; [|split; [|split; [|apply tagged_lastb_filter; exact Htl]]].
+  split; [apply items_eqb_eq; exact Hrw|]. split; [|split; [|split; [|split; [apply tagged_lastb_filter; exact Htl|exact Hpo]]]].
   - rewrite forallb_forall in Hd. apply Hd. exact Hv.
   - intros it Hin. apply filter_In in Hin as [Hin _]. rewrite forallb_forall in Hio. apply Hio. exact Hin.
   - intros Hs. rewrite Hs in Hsub. cbn in Hsub. rewrite forallb_forall in *.
@@ -618,8 +644,9 @@ Proof.
     rewrite Hw in Hb'. injection Hb' as <-. cbn [ptype_of] in Hd. rewrite Hd. reflexivity.
   - (* structure *)
     destruct (find_cls E c) as [k|] eqn:Ec; [|discriminate].
-    destruct (cls_facts c k Hv Ec) as (Hrw & Hdj & Hio & Hnp & Htl).
+    destruct (cls_facts c k Hv Ec) as (Hrw & Hdj & Hio & Hnp & Htl & Hpo).
     destruct (v <? c_minver k) eqn:Emv; [discriminate|]. cbn [negb andb] in Hwf.
+    destruct (forallb (post_ok v fields) (c_post_wr k)) eqn:Epo; [|discriminate]. cbn [negb andb] in Hwf, Hw.
     destruct (wr_items (wr E v f) [] (filter (active v) (c_wr k)) fields) as [body|] eqn:Eb; [|discriminate].
     apply with_hdr_some in Hw as (h & Hh & ->).
     rewrite <- app_assoc.
@@ -633,10 +660,10 @@ Proof.
       pose proof (rd_items_wr (wr E v f) (rd E v f) (wfv E v f) (wr_starts f) (wr_etag f) IH
                     (filter (active v) (c_wr k)) [] fields body [] Hdj Htl Hio Hwf Eb
                     (or_intror eq_refl)) as Hitems.
-      rewrite app_nil_r in Hitems. rewrite Hitems. rewrite andb_false_r. reflexivity.
+      rewrite app_nil_r in Hitems. rewrite Hitems. rewrite Hpo, Epo. cbn [negb]. rewrite andb_false_r. reflexivity.
     + rewrite (rd_items_wr (wr E v f) (rd E v f) (wfv E v f) (wr_starts f) (wr_etag f) IH
                     (filter (active v) (c_wr k)) [] fields body rest Hdj Htl Hio Hwf Eb
-                    (or_introl (Hnp eq_refl))). reflexivity.
+                    (or_introl (Hnp eq_refl))). rewrite Hpo, Epo. reflexivity.
   - (* any-attribute element *)
     destruct (find_row E v t tg) as [k'|] eqn:Ef; [|discriminate].
     destruct (row_facts t tg k' Ef) as (Htg & Hmem & Hnt). rewrite Hnt in *. cbn [negb andb] in Hwf.
@@ -726,6 +753,7 @@ Proof.
   - destruct (find_cls E c) as [k|] eqn:Ec; [|discriminate].
     destruct (cls_facts c k Hv Ec) as (Hrw & _ & Hio & _). rewrite Hrw in Hio.
     destruct (v <? c_minver k) eqn:Emv; [discriminate|]. cbn [negb andb] in Hwf.
+    destruct (forallb (post_ok v fields) (c_post_wr k)) eqn:Epo; [|discriminate]. cbn [negb andb] in Hwf, Hw.
     destruct (wr_items _ _ _ _) as [body|] eqn:Eb; [|discriminate].
     destruct (items_children (wr E v f) (wfv E v f) _ _ _ _ IH Hio Hwf Eb) as (children & -> & Hch).
     apply with_hdr_some in Hw as (h & Hh & ->). apply hdr_spec in Hh as [-> Hr].
@@ -937,7 +965,7 @@ Proof.
     destruct p; try discriminate. cbn [wf_prim] in Hwf. apply andb_prop in Hwf as [_ Hm].
     split; [exact Hm|]. split; [exact Henc|]. split; [lia|exact Htb].
   - destruct (find_cls E c) as [k|] eqn:Ec; [|discriminate].
-    destruct (cls_facts c k Hv Ec) as (Hrw & _ & Hio & _).
+    destruct (cls_facts c k Hv Ec) as (Hrw & _ & Hio & _ & _ & Hpo).
     destruct (v <? c_minver k) eqn:Emv; [discriminate|].
     destruct (dec_hdr tag STRUCT_CODE bs) as [[len r]|] eqn:Eh; [|discriminate].
     pose proof (dec_hdr_type_byte tag STRUCT_CODE bs len r ltac:(unfold STRUCT_CODE; lia) Eh) as Htb.
@@ -945,6 +973,7 @@ Proof.
     rewrite zlen_app in Hs. pose proof (zlen_nonneg r).
     assert (Hmk : forall (sub : bytes) (fields : list (list value)) (rest0 body usedsub : bytes),
                zlen usedsub <= zlen sub -> zlen sub <= zlen r -> zlen body <= 2 * zlen usedsub ->
+               forallb (post_ok v fields) (c_post_rd k) = true ->
                wf_items E v (wfv E v f) [] (filter (active v) (c_rd k)) fields = true ->
                wr_items (wr E v f) [] (filter (active v) (c_rd k)) fields = Some body ->
                h ++ r = (h ++ sub) ++ rest0 ->
@@ -952,14 +981,14 @@ Proof.
                  wfv E v (S f) (KStruct c) (VS fields) = true /\
                  wr E v (S f) tag (KStruct c) (VS fields) = Some bs' /\ zlen bs' <= 2 * zlen used /\
                  type_byte_is (h ++ r) (tyc (VS fields))).
-    { intros sub fields rest0 body usedsub Hus Hsub Hlb Hwff Hbody Heq.
+    { intros sub fields rest0 body usedsub Hus Hsub Hlb Hpok Hwff Hbody Heq.
       exists (h ++ sub).
       assert (Hhdr : exists hb, hdr tag STRUCT_CODE (zlen body) = Some hb).
       { apply hdr_total. pose proof (zlen_nonneg body). unfold TWO31, TWO32 in *. lia. }
       destruct Hhdr as [hb Hhb].
       exists (hb ++ body). split; [exact Heq|].
       split; [rewrite zlen_app; pose proof (zlen_nonneg sub); lia|].
-      cbn [wr wfv]. rewrite Ec, Emv. cbn [negb andb]. rewrite <- Hrw.
+      cbn [wr wfv]. rewrite Ec, Emv. rewrite <- Hpo, Hpok. cbn [negb andb]. rewrite <- Hrw.
       split; [exact Hwff|]. rewrite Hbody. unfold with_hdr. rewrite Hhb.
       split; [reflexivity|].
       assert (zlen hb = 8).
@@ -970,6 +999,7 @@ Proof.
     destruct (c_substream k) eqn:Esub.
     + set (n := Z.to_nat (Z.min len (zlen r))) in *.
       destruct (rd_items E v (rd E v f) [] (filter (active v) (c_rd k)) (firstn n r)) as [[fields leftover]|] eqn:Ei; [|discriminate].
+      destruct (forallb (post_ok v fields) (c_post_rd k)) eqn:Epo; [|discriminate]. cbn [negb] in H.
       destruct (c_oversize_check k && negb (Nat.eqb (List.length leftover) 0)); [discriminate|]. injection H as <- <-.
       assert (Hsplit : r = firstn n r ++ skipn n r) by (symmetry; apply firstn_skipn).
       assert (Hoksub : bytes_ok (firstn n r) = true) by (rewrite Hsplit in Hr; apply bytes_ok_app in Hr; tauto).
@@ -979,14 +1009,15 @@ Proof.
                   Hoksub ltac:(lia) Ei) as (usedsub & body & Hsubeq & Hwff & Hbody & Hlb).
       assert (Hus : zlen usedsub <= zlen (firstn n r)).
       { rewrite Hsubeq, zlen_app. pose proof (zlen_nonneg leftover). lia. }
-      apply (Hmk (firstn n r) fields (skipn n r) body usedsub Hus Hsub_le Hlb Hwff Hbody).
+      apply (Hmk (firstn n r) fields (skipn n r) body usedsub Hus Hsub_le Hlb Epo Hwff Hbody).
       rewrite <- app_assoc. f_equal. exact Hsplit.
     + destruct (rd_items E v (rd E v f) [] (filter (active v) (c_rd k)) r) as [[fields rest0]|] eqn:Ei; [|discriminate].
+      destruct (forallb (post_ok v fields) (c_post_rd k)) eqn:Epo; [|discriminate]. cbn [negb] in H.
       injection H as <- <-.
       destruct (rd_items_sound (rd E v f) (wr E v f) (wfv E v f) IH (filter (active v) (c_rd k)) Hio [] r fields rest0
                   Hr ltac:(lia) Ei) as (usedsub & body & Hsubeq & Hwff & Hbody & Hlb).
       apply (Hmk usedsub fields rest0 body usedsub ltac:(lia)
-                 ltac:(rewrite Hsubeq, zlen_app; pose proof (zlen_nonneg rest0); lia) Hlb Hwff Hbody).
+                 ltac:(rewrite Hsubeq, zlen_app; pose proof (zlen_nonneg rest0); lia) Hlb Epo Hwff Hbody).
       rewrite <- app_assoc. f_equal. exact Hsubeq.
   - (* any-attribute element *)
     destruct (take_exact 3 bs) as [[tb rb]|] eqn:Etk; [|discriminate].
